@@ -64,6 +64,13 @@ impl HetTable {
         compressed_size: u64,
         key: u32,
     ) -> Result<Self> {
+        // The size comes from the archive header: never allocate more than the file holds
+        let stream_len = reader.seek(SeekFrom::End(0))?;
+        if offset > stream_len || compressed_size > stream_len - offset {
+            return Err(Error::invalid_format(
+                "HET table extends beyond the end of the archive",
+            ));
+        }
         reader.seek(SeekFrom::Start(offset))?;
 
         // Read the compressed/encrypted data
